@@ -110,6 +110,7 @@ type Specs struct {
 	SpecOrd []string
 	Ghosts  map[string]*GhostField // key Type.Name
 	GhostGl map[string]string      // ghost globals: name -> sort
+	Abstractions map[string]map[string]string // impl type key -> interface ghost field key -> expression over self
 	HeapInvs  []*Clause
 	Rep       map[string][]string  // abstract ghost field "T.f" -> modifies targets of its representation
 	Frameless map[string]bool      // ghost globals that every call may change unless its contract says otherwise (no frame obligations)
@@ -125,7 +126,7 @@ type Specs struct {
 
 func NewSpecs() *Specs {
 	return &Specs{Funcs: map[string]*FuncSpec{}, SpecFns: map[string]*SpecFunc{}, Ghosts: map[string]*GhostField{},
-		GhostGl: map[string]string{}, Frameless: map[string]bool{}, Rep: map[string][]string{}, Consts: map[string]string{}, Scan: map[string]int{}, Pools: map[string]*PoolDecl{}, Preds: map[string]*SpecFunc{}}
+		GhostGl: map[string]string{}, Frameless: map[string]bool{}, Rep: map[string][]string{}, Abstractions: map[string]map[string]string{}, Consts: map[string]string{}, Scan: map[string]int{}, Pools: map[string]*PoolDecl{}, Preds: map[string]*SpecFunc{}}
 }
 
 var reLabel = regexp.MustCompile(`^\[([^\]]+)\]\s*`)
@@ -426,6 +427,21 @@ func (sp *Specs) LoadSpecFile(path string) error {
 			sp.Axioms = append(sp.Axioms, c)
 			sp.Scan["axiom"]++
 			lastExpr = &c.Expr
+			cur = nil
+		case "abstraction":
+			// abstraction fio.ReadWriter.size of *fio.FileIO = self.fd.fsz
+			// (when the conformance of that implementation is checked, the interface's ghost field on the
+			// receiver is read off the implementation's own state)
+			k := strings.Index(rest, " of ")
+			j := strings.Index(rest, "=")
+			if k < 0 || j < k {
+				return fmt.Errorf("%s:%d: bad abstraction", path, ln)
+			}
+			gk, impl, ex := strings.TrimSpace(rest[:k]), strings.TrimSpace(rest[k+4:j]), strings.TrimSpace(rest[j+1:])
+			if sp.Abstractions[impl] == nil {
+				sp.Abstractions[impl] = map[string]string{}
+			}
+			sp.Abstractions[impl][gk] = ex
 			cur = nil
 		case "rep":
 			// rep index.ShardedIndex.model : type:btree.BTree.bm, ...   (representation of an abstract ghost field:
